@@ -33,6 +33,12 @@ int internUuid(const std::string& u) {
   return n;
 }
 void resetScenario() { g_uuids.clear(); }
+static std::atomic<bool> g_concurrent{false};
+void setConcurrentMode(bool on) { g_concurrent.store(on); }
+std::string& lastInitIdThisThread() {
+  static thread_local std::string s;
+  return s;
+}
 std::string& lastNote() {
   static std::string s;
   return s;
@@ -63,6 +69,7 @@ class ScriptedPlugin : public Engine::BasePlugin {
  public:
   explicit ScriptedPlugin(bool isAction) : isAction_(isAction), serial_(++g_serial) {}
   ~ScriptedPlugin() override {
+    if (g_concurrent.load()) return;
     evEmit(J().str("e", "Dtor").num("serial", serial_));
   }
   int init(const Engine::PluginArgs& args, const PluginConstructionContext& context) override {
@@ -71,8 +78,12 @@ class ScriptedPlugin : public Engine::BasePlugin {
     argParser_.addArgument("cgroup", cgroup_);
     argParser_.addArgument("note", note_); // free-form value, used to observe how JSON values arrive
     if (!argParser_.parse(args)) {
-      evEmit(J().str("e", "InitFail").num("serial", serial_));
+      if (!g_concurrent.load()) evEmit(J().str("e", "InitFail").num("serial", serial_));
       return 1;
+    }
+    if (g_concurrent.load()) {
+      lastInitIdThisThread() = id_;
+      return 0;
     }
     std::vector<std::string> kv;
     for (auto& [k, v] : std::map<std::string, std::string>(args.begin(), args.end())) {
@@ -89,6 +100,7 @@ class ScriptedPlugin : public Engine::BasePlugin {
     return 0;
   }
   void prerun(OomdContext&) override {
+    if (g_concurrent.load()) return;
     evEmit(J().str("e", "Prerun").num("serial", serial_));
   }
   Engine::PluginRet run(OomdContext& ctx) override {
@@ -97,6 +109,9 @@ class ScriptedPlugin : public Engine::BasePlugin {
     bool hasRs = ruleset.has_value() && *ruleset != nullptr;
     Decision d = g_decider(CallInfo{serial_, id_, isAction_, calls_++});
     if (d.advMs) vclockAdvance(d.advMs);
+    if (g_concurrent.load()) {
+      return d.ret == 1 ? Engine::PluginRet::STOP : d.ret == 2 ? Engine::PluginRet::ASYNC_PAUSED : Engine::PluginRet::CONTINUE;
+    }
     bool applied = false;
     if (isAction_ && d.ret == 1 && hasRs && delay_) {
       // exactly what BaseKillPlugin::run does with its post_action_delay argument
